@@ -30,9 +30,21 @@ func (s *DataSemaphore) Acquire(weight dag.Metric, timeout time.Duration) bool {
 	deadline := time.Now().Add(timeout)
 	s.mu.Lock()
 	defer s.mu.Unlock()
+	var wakeup *time.Timer
+	expired := false
 	for !s.tryAcquire(weight) {
-		if weight.Size > s.maxProcessing.Size || weight.Num > s.maxProcessing.Num || time.Now().After(deadline) {
+		if weight.Size > s.maxProcessing.Size || weight.Num > s.maxProcessing.Num || expired || time.Now().After(deadline) {
 			return false
+		}
+		if wakeup == nil {
+			// wake up at the deadline even if nothing is released until then
+			wakeup = time.AfterFunc(time.Until(deadline), func() {
+				s.mu.Lock()
+				expired = true
+				s.cond.Broadcast()
+				s.mu.Unlock()
+			})
+			defer wakeup.Stop()
 		}
 		s.cond.Wait()
 	}
